@@ -61,6 +61,8 @@ def upper_bounds(db, guards, te=None, root=None):
             eq.append((next(iter(lf)), next(iter(rf)), g))
     return ub, eq
 
+THOROUGH_MAIN_CONFIGS = ['b248s6', 'nostd']
+
 
 def run(ctx, rep):
     db = ctx.main
@@ -77,7 +79,7 @@ def run(ctx, rep):
         sites = [g for g in gs if (getattr(g, 'kind', '') or '').startswith('iter')]
         guards = [g for g in gs if not (getattr(g, 'kind', '') or '').startswith('iter')]
         ub, eqs = upper_bounds(db, guards, te, root)
-        total += len(sites)
+        total += sum(1 for x in sites if x.kind != 'iter:alloc')
         ords = {}
         classes = {}
         for s in sites:
@@ -118,8 +120,9 @@ def run(ctx, rep):
                      f'{bad} has no upper-bound guard that precedes the site: the verifier loops/allocates in proportion to the field\'s value')),
                    db.fns[s.fn].loc(s.line), cfg, sample=(lname == 'recursive'))
         rep.note(f'classes[{lname}]', classes)
-    # measured on the pinned tree: 61 sites per layout for 4 layouts, more for the larger ones
-    rep.floor('C17', 'iteration/allocation sites over the 7 layouts', total, 420)
+    # measured: 44 loops + pipelines per layout (allocation sites are not counted for the floor: removing an
+    # allocation is a legitimate refactor)
+    rep.floor('C17', 'loops and iterator pipelines over the 7 layouts', total, 280)
     # ---------- recursion ----------
     R = db.reach([VERIFY])
     idx = {p: i for i, p in enumerate(R)}
